@@ -211,7 +211,9 @@ async def _routing(loop, case, out: Outcome):
 def run(case: dict) -> Outcome:
     out = Outcome()
     try:
-        vclock.run(lambda loop: _routing(loop, case, out), max_steps=1_200_000)
+        # timer jitter: two workers polling one in-memory queue in exact lockstep can rotate each other's messages for
+        # ever, which no real loop does
+        vclock.run(lambda loop: _routing(loop, case, out), max_steps=1_200_000, jitter_seed=case["seed"] + 1)
     except (vclock.StepLimit, vclock.Deadlock) as e:
         out.inconclusive = True
         out.info["watchdog"] = str(e)
